@@ -220,10 +220,11 @@ func createRequestFormParam(doc *v3.Document, param definitions.FuncParam, opera
 	}
 	// Create a new schema for the form parameter
 	propertySchemaRef := InterfaceToSchemaV3(doc, param.TypeMeta.Name)
-	// Add the validation to the schema
-	BuildSchemaValidationV31(propertySchemaRef.Schema(), param.Validator, param.TypeMeta.Name)
-	// Set the description on the property schema itself
+	// A reference (an enum or alias typed field) has no schema of its own to carry validation or a description
 	if propertySchemaRef.Schema() != nil {
+		// Add the validation to the schema
+		BuildSchemaValidationV31(propertySchemaRef.Schema(), param.Validator, param.TypeMeta.Name)
+		// Set the description on the property schema itself
 		propertySchemaRef.Schema().Description = param.Description
 	}
 	// Add the form parameter to the schema
